@@ -9,7 +9,8 @@ from univers.version_constraint import VersionConstraint
 MODULES = ["Univers.Props.C07", "Univers.Props.Schemes"]
 LEVEL = "proof"
 # function-level tie (translator + agreement theorem): see runner step 3a
-TIE_THEOREMS = {"Univers.Vers.GenValidateThm": ["Univers.Gen.LayerB.validate_comparators_eq"], "Univers.Vers.GenConValidateThm": ["Univers.Gen.LayerB.con_validate_eq"]}
+TIE_THEOREMS = {"Univers.Vers.GenLayerBExact": ["Univers.Gen.LayerB.py_validate_iff_wf", "Univers.Gen.LayerB.py_validate_rejects_with_ValueError"],
+                "Univers.Vers.GenValidateThm": ["Univers.Gen.LayerB.validate_comparators_eq"], "Univers.Vers.GenConValidateThm": ["Univers.Gen.LayerB.con_validate_eq"]}
 RULE = ("bounded-exhaustive: every comparator sequence up to length L over distinct versions, presented in a "
         "seeded random order, plus variants with one duplicated version and with stars, on real versions of every "
         "scheme, against the Lean model `validate` and the spec `WF` on ranks; accepted lists are then probed for "
